@@ -25,7 +25,9 @@ fn quotient_diff(s: &mut Sess, t: RegLan, c: u32, d: RegLan) -> Result<Option<Ve
 fn quotient_diff_dp(s: &mut Sess, t: RegLan, c: u32, d: RegLan, words: &[Vec<u32>]) -> Option<Vec<u32>> {
     let rt = s.ctx.sref(t);
     let rd = s.ctx.sref(d);
-    for w in words.iter().filter(|w| w.len() <= 5) {
+    // very large terms (wide unions under other operators): a handful of continuation words only
+    let cap = if rt.size() + rd.size() > 300 { 4 } else { usize::MAX };
+    for w in words.iter().filter(|w| w.len() <= 5).take(cap) {
         let mut cw = vec![c];
         cw.extend_from_slice(w);
         if dp_matches(&rt, &cw) != dp_matches(&rd, w) {
@@ -111,7 +113,34 @@ pub fn check_term(s: &mut Sess, rep: &mut Report, t: RegLan, k: usize, words: &[
     rep.inc("terms_checked");
 
     // class_derivative on every valid id, compared with the quotient for EVERY probe character of the class
-    for &cid in &want {
+    // terms with very many classes (wide unions): the classes at both ends, those whose index is next to a power of
+    // two, and a random sample (each class derivative is a different large term for the reference engine)
+    let sel: Vec<ClassId> = if want.len() <= 48 {
+        want.clone()
+    } else {
+        let mut idx: Vec<usize> = vec![0, 1, 2, n - 1, n.saturating_sub(2)];
+        let mut p = 8usize;
+        while p <= n + 1 {
+            for d in [p - 2, p - 1, p, p + 1] {
+                if d < n {
+                    idx.push(d);
+                }
+            }
+            p *= 2;
+        }
+        for _ in 0..16 {
+            idx.push(s.rng.usize(n));
+        }
+        idx.sort_unstable();
+        idx.dedup();
+        rep.inc("terms_with_sampled_classes");
+        let mut v: Vec<ClassId> = idx.into_iter().map(ClassId::Interval).collect();
+        if comp_nonempty {
+            v.push(ClassId::Complement);
+        }
+        v
+    };
+    for &cid in &sel {
         let r = match guard(|| s.m.class_derivative(t, cid)) {
             Ok(Ok(r)) => r,
             Ok(Err(e)) => {
@@ -132,9 +161,23 @@ pub fn check_term(s: &mut Sess, rep: &mut Report, t: RegLan, k: usize, words: &[
             }
             Err(msg) => s.viol(rep, "class-derivative", "class-derivative:unchecked-panic", format!("class_derivative_unchecked({}, {}) panicked on a valid class: {}", term_text(t), cid, msg), k),
         }
-        let chars = class_chars(&ranges, cid, &probes);
+        let mut chars = class_chars(&ranges, cid, &probes);
         if chars.is_empty() {
-            rep.harness_error(format!("no probe in class {} of {}", cid, term_text(t)));
+            // the probe list of a term with hundreds of classes is a sample: fall back to the class's own end points
+            match cid {
+                ClassId::Interval(i) => chars.extend_from_slice(&[ranges[i].0, ranges[i].1]),
+                ClassId::Complement => {
+                    let mut c = 0u32;
+                    for &(a, b) in &ranges {
+                        if c < a {
+                            break;
+                        }
+                        c = b + 1;
+                    }
+                    chars.push(c);
+                }
+            }
+            chars.dedup();
         }
         for &c in &chars {
             rep.inc("class_char_probes");
